@@ -220,6 +220,16 @@ pub fn build_module(log: Log, subs: SubRegistry, auto_sub: bool, hang: tokio::sy
 		.unwrap();
 	}
 	{
+		// an error without data whose message is long: [n]
+		let log = log.clone();
+		m.register_method("failmsg", move |p, _, ext| {
+			log_invocation(&log, ext, "failmsg", &p);
+			let n: usize = p.one().unwrap_or(0);
+			Err::<u8, _>(ErrorObjectOwned::owned(-32052, "m".repeat(n), None::<()>))
+		})
+		.unwrap();
+	}
+	{
 		// like `blob`, but asynchronous and slow: [n, kind, delay in ms]
 		let log = log.clone();
 		m.register_async_method("ablob", move |p, _, ext| {
